@@ -148,6 +148,8 @@ pub fn run(plan: &Value, log: bool) -> (RunReport, String) {
         // legitimately (the successor boots from the main process's state). Which commands the main state accepts is
         // read off a ConfigState of the harness (classification of plans only, never an expected value).
         let has_replace = ops.iter().any(|r| matches!(r.request_type, Some(RequestType::ReplaceCertificate(_))));
+        // plan-level trigger of C05-E1: the history gives a certificate an `expired_at` override (the saved state has no place for it)
+        let has_expiry_override = ops.iter().any(|r| match &r.request_type { Some(RequestType::AddCertificate(a)) => a.expired_at.is_some(), Some(RequestType::ReplaceCertificate(x)) => x.new_expired_at.is_some(), _ => false });
         let accepted_by_state = cfggen::apply_history(&ops).1;
         let all_ok = (0..n_ops).all(|i| !accepted_by_state[i] || r.steps.get(i).map(|s| s.ok()).unwrap_or(false));
         let failed_ops = (0..n_ops).filter(|i| accepted_by_state[*i] && !r.steps.get(*i).map(|s| s.ok()).unwrap_or(false)).count();
@@ -179,7 +181,7 @@ pub fn run(plan: &Value, log: bool) -> (RunReport, String) {
                                 // plan-level trigger of the recorded ReplaceCertificate findings (CFG-S1/S2 family: the main state and
                                 // the worker's resolver do not do the same thing with a ReplaceCertificate): certificate keys say
                                 // whether the history contains one at all; with one, the differing part is in the detail only
-                                let key = if kind == "certs" && has_replace { format!("successor_view_differs|certs|replace_certificate_in_history") } else { format!("successor_view_differs|{kind}|{what}") };
+                                let key = if kind == "certs" && has_replace { format!("successor_view_differs|certs|replace_certificate_in_history") } else if kind == "certs" && has_expiry_override { "successor_view_differs|certs|expired_at_override_in_history".to_string() } else { format!("successor_view_differs|{kind}|{what}") };
                                 v.push(Violation::new("roundtrip_mismatch", key, format!("{l} ({what}): predecessor {} / successor {}", o.chars().take(400).collect::<String>(), n.chars().take(400).collect::<String>())));
                             }
                         }
